@@ -7,6 +7,7 @@ mod c05;
 mod c06;
 mod c13;
 mod c14;
+mod c18;
 mod genr;
 mod rng;
 mod util;
@@ -30,6 +31,7 @@ fn main() {
         "c03" => c03::run(&args[2..]),
         "c13" => c13::run(&args[2..]),
         "c14" => c14::run(&args[2..]),
+        "c18" => c18::run(&args[2..]),
         other => {
             eprintln!("unknown property {other}");
             2
